@@ -37,8 +37,6 @@ Proof. induction n as [|n IH]; intros k; [reflexivity|]. cbn [repeat enum_from m
 
 Lemma filter_true {A} : forall l : list A, filter (fun _ => true) l = l.
 Proof. induction l as [|a l IH]; [reflexivity|]. cbn [filter]. now rewrite IH. Qed.
-Lemma filter_false {A} : forall l : list A, filter (fun _ => false) l = [].
-Proof. induction l as [|a l IH]; [reflexivity|exact IH]. Qed.
 
 (* ---------- SampleSegregatingPermutationPlateGenerator._generate_plates ---------- *)
 (* ceil(a / b) for b > 0, as the model writes it *)
@@ -496,10 +494,6 @@ Proof.
   intros r1 r2 H1 H2 _. now rewrite (H r1 H1), (H r2 H2).
 Qed.
 
-Lemma existsb_negb_repeat_true : forall n, existsb negb (repeat true n) = false.
-Proof. induction n as [|n IH]; [reflexivity|exact IH]. Qed.
-Lemma vselect_repeat_true {A} : forall l : list A, vselect (repeat true (length l)) l = l.
-Proof. induction l as [|a l IH]; [reflexivity|]. cbn [length repeat vselect]. now rewrite IH. Qed.
 Lemma map_const_true {A} : forall l : list A, map (fun _ => true) l = repeat true (length l).
 Proof. induction l as [|a l IH]; [reflexivity|]. cbn [map length repeat]. now rewrite IH. Qed.
 Lemma filter_negb_none {A} (f : A -> bool) : forall l, existsb negb (map f l) = false -> filter (fun x => negb (f x)) l = [].
